@@ -275,18 +275,14 @@ func (c *procCase) invoke(p *nplugin.CLIPlugin, dir, path string) *nplugin.CLIPl
 		c.Result, c.resTerm = "RNew", "RNew"
 		p = nil
 	} else {
-		switch c.Cmd {
-		case 0:
-			_, err = p.GetMetadata(ctx, &fw.GetMetadataRequest{})
-		case 1:
-			_, err = p.DescribeKey(ctx, &fw.DescribeKeyRequest{KeyID: "k"})
-		case 2:
-			_, err = p.GenerateSignature(ctx, &fw.GenerateSignatureRequest{KeyID: "k", KeySpec: fw.KeySpecEC256, Hash: fw.HashAlgorithmSHA256, Payload: []byte("p")})
-		case 3:
-			_, err = p.GenerateEnvelope(ctx, &fw.GenerateEnvelopeRequest{KeyID: "k", PayloadType: "application/vnd.cncf.notary.payload.v1+json", SignatureEnvelopeType: "application/jose+json", Payload: []byte("p")})
-		case 4:
-			_, err = p.VerifySignature(ctx, &fw.VerifySignatureRequest{})
-		}
+		func() {
+			defer func() {
+				if r := recover(); r != nil {
+					err = fmt.Errorf("panic: %v", r)
+				}
+			}()
+			err = c.call(ctx, p)
+		}()
 		c.Result, c.resTerm = classify(err)
 	}
 	elapsed := time.Since(start)
@@ -305,6 +301,24 @@ func (c *procCase) invoke(p *nplugin.CLIPlugin, dir, path string) *nplugin.CLIPl
 		}
 	}
 	return p
+}
+
+func (c *procCase) call(ctx context.Context, p *nplugin.CLIPlugin) (err error) {
+	{
+		switch c.Cmd {
+		case 0:
+			_, err = p.GetMetadata(ctx, &fw.GetMetadataRequest{})
+		case 1:
+			_, err = p.DescribeKey(ctx, &fw.DescribeKeyRequest{KeyID: "k"})
+		case 2:
+			_, err = p.GenerateSignature(ctx, &fw.GenerateSignatureRequest{KeyID: "k", KeySpec: fw.KeySpecEC256, Hash: fw.HashAlgorithmSHA256, Payload: []byte("p")})
+		case 3:
+			_, err = p.GenerateEnvelope(ctx, &fw.GenerateEnvelopeRequest{KeyID: "k", PayloadType: "application/vnd.cncf.notary.payload.v1+json", SignatureEnvelopeType: "application/jose+json", Payload: []byte("p")})
+		case 4:
+			_, err = p.VerifySignature(ctx, &fw.VerifySignatureRequest{})
+		}
+	}
+	return err
 }
 
 // executeGroup runs the steps of a history on ONE CLIPlugin instance (a
